@@ -82,8 +82,22 @@ func ZZ_C16_Reader() {
 	env := &Envelope{}
 	typePool := []string{zzTyA, zzTyB, zzTyU}
 	nT := zzrt.Choose(3)
+	unknownChosen := false
 	for i := 0; i < nT; i++ {
-		env.TypeNames = append(env.TypeNames, typePool[zzrt.Choose(len(typePool))])
+		tn := typePool[zzrt.Choose(len(typePool))]
+		if tn == zzTyU {
+			// the unregistered name is, once per envelope, either a well-formed name nobody registered or the
+			// empty string
+			if !unknownChosen {
+				unknownChosen = true
+				typePool[2] = []string{zzTyU, ""}[zzrt.Choose(2)]
+			}
+			tn = typePool[2]
+			if tn == "" {
+				zzrt.Reach("empty-type-name")
+			}
+		}
+		env.TypeNames = append(env.TypeNames, tn)
 	}
 	nTg := zzrt.Choose(3)
 	for i := 0; i < nTg; i++ {
